@@ -5,6 +5,7 @@ import DendroModel.Theory.Unrooted
 import DendroModel.Theory.Laminar
 import DendroModel.Theory.Lsb
 import DendroModel.Theory.C01Bridge
+import DendroModel.Theory.C01Reseed
 /-! C01 — property theorems.  Obligations are the theorems directly in `namespace DendroModel.C01`;
 helpers live in `DendroModel.C01.Aux`.  The statements about `PyBits.*` are about definitions regenerated
 from the current source on every run. -/
@@ -569,7 +570,8 @@ theorem encode_unrooted_flags_invariant (s c s' c' : Bool) (t : T) (hg : Good (T
 
 /-- unrooted, sufficiency, about `encode`: if the trees left by the encoder are well formed, unifurcation-free and both
     seeded next to the lowest leaf `k` of their common leafset (seed of degree ≥ 3), equal sets of split masks force the same
-    topology up to child order.  (`_partial`: only for this canonical seed position.  That every unrooted tree can be
+    topology up to child order.  (`_partial`: only for this canonical seed position — superseded by
+    `encode_unrooted_iff_topology` / `encode_unrooted_determines_topology` below, which hold for every seed position.  That every unrooted tree can be
     brought there by edge inversions — each of which keeps the split set, `unrooted_splits_invariant_under_inversion` —
     is not proved; other seed positions are covered by the correspondence and the oracle's graph re-rootings only.) -/
 theorem encode_unrooted_determines_topology_partial (k : Nat) (s c s' c' : Bool) (t u : T)
@@ -803,6 +805,508 @@ theorem rebuild_rooted_topology (sup col : Bool) (t : T) (all : Nat) (members ss
   rw [Bridge.sup_of_noUnif _ hnu] at h
   exact ⟨h, hnu⟩
 
+end DendroModel.C01
+
+/-! ## extension round: unrooted sufficiency for every seed position, unrooted rebuild, tree compatibility -/
+namespace DendroModel.C01.Aux
+open DendroModel DendroModel.Hier DendroModel.C01
+
+/-- the unrooted split masks of `encode`, read off any mask-labelled tree `H` with the tree's leafset and clade set
+    (`T.toH t` itself, or `Hier.sup (T.toH t)`) -/
+theorem mem_encode_unrooted_of (s c : Bool) (t : T) (hg : Good (T.toH t)) (h0 : t.mask ≠ 0) (k : Nat)
+    (hk : Lsb.lsb t.mask = 1 <<< k) (H : Hier.T) (hm : Hier.mask H = t.mask) (hc : ∀ m, m ∈ clades H ↔ m ∈ t.masksPost)
+    (z : Int) :
+    z ∈ (encode (some false) s c t).map (·.2) ↔ ∃ x : Nat, (x : Int) = z ∧ (x = 0 ∨ x ∈ usplits (1 <<< k) H) := by
+  have hroot : Hier.norm (Hier.mask H) (1 <<< k) (Hier.mask H) = 0 := by rw [hm, ← hk]; exact norm_root _
+  rw [mem_encode_unrooted s c t hg h0, hk]
+  constructor
+  · rintro ⟨m, hmm, rfl⟩
+    exact ⟨_, rfl, (Bridge.usplits_or_zero _ H hroot _).mpr ⟨m, (hc m).mpr hmm, by rw [hm]⟩⟩
+  · rintro ⟨x, rfl, hx⟩
+    obtain ⟨y, hy, e⟩ := (Bridge.usplits_or_zero _ H hroot _).mp hx
+    rw [hm] at e
+    exact ⟨y, (hc y).mp hy, by rw [e]⟩
+
+theorem lsb_index_mem (L k : Nat) (h0 : L ≠ 0) (hk : Lsb.lsb L = 1 <<< k) : k ∈ bits L := by
+  have := (lsb_ok L h0).2.1
+  rw [hk, bits_shift] at this
+  exact Set.singleton_subset_iff.mp this
+
+theorem threeTaxa_ne_zero {m : Nat} (h : Bridge.ThreeTaxa m) : m ≠ 0 := by
+  obtain ⟨a, _, _, ha, _⟩ := h
+  intro h0; rw [h0, bits_zero] at ha; exact ha
+
+end DendroModel.C01.Aux
+
+namespace DendroModel.C01
+open DendroModel DendroModel.Hier DendroModel.C01.Aux
+
+/-- **unrooted, full strength, about `encode`, for every seed position**: two well-formed trees over the same ≥ 3 taxa are
+    given equal sets of split masks by the encoder — whatever the flags, child order, unifurcations and seed positions —
+    iff they are the same unrooted topology: the same tree up to child order once both are re-seeded at the node their lowest
+    leaf `k` hangs from (`canonU`, executable; the driver prints it and the harness compares it with the oracle's own
+    graph-based canonical form).  `Bridge.canonU_spec` is the chain the earlier `_partial` lacked: every tree reaches that
+    seed position by edge inversions (each one `usplits_invert`) and suppression of the unifurcations they leave.
+    (For fewer than three taxa there is one unrooted topology per leaf set and nothing to prove.) -/
+theorem encode_unrooted_iff_topology (s c s' c' : Bool) (t u : T) (hgt : Good (T.toH t)) (hgu : Good (T.toH u))
+    (hL : t.mask = u.mask) (h3 : Bridge.ThreeTaxa t.mask) (k : Nat) (hk : Lsb.lsb t.mask = 1 <<< k) :
+    (∀ z : Int, z ∈ (encode (some false) s c t).map (·.2) ↔ z ∈ (encode (some false) s' c' u).map (·.2)) ↔
+      Iso (canonU k (Hier.sup (T.toH t))) (canonU k (Hier.sup (T.toH u))) := by
+  have h0 : t.mask ≠ 0 := threeTaxa_ne_zero h3
+  have h0u : u.mask ≠ 0 := by rw [← hL]; exact h0
+  have hmt : Hier.mask (Hier.sup (T.toH t)) = t.mask := by rw [sup_mask, toH_mask]
+  have hmu : Hier.mask (Hier.sup (T.toH u)) = u.mask := by rw [sup_mask, toH_mask]
+  have ht0 : Hier.mask (T.toH t) ≠ 0 := by rw [toH_mask]; exact h0
+  have hu0 : Hier.mask (T.toH u) ≠ 0 := by rw [toH_mask]; exact h0u
+  rw [← Bridge.unrooted_same_splits_iff k _ _ (sup_good _ hgt) (sup_good _ hgu) (sup_noUnif _ hgt ht0) (sup_noUnif _ hgu hu0)
+    (by rw [hmt, hmu, hL]) (by rw [hmt]; exact lsb_index_mem _ _ h0 hk) (by rw [hmt]; exact h3)]
+  have et := mem_encode_unrooted_of s c t hgt h0 k hk (Hier.sup (T.toH t)) hmt
+    (fun m => by rw [sup_clades, toH_clades])
+  have eu := mem_encode_unrooted_of s' c' u hgu h0u k (by rw [← hL]; exact hk) (Hier.sup (T.toH u)) hmu
+    (fun m => by rw [sup_clades, toH_clades])
+  constructor
+  · intro h x
+    have hx := h (x : Int)
+    rw [et, eu] at hx
+    constructor
+    · intro hxt
+      obtain ⟨y, hy, hyu⟩ := hx.mp ⟨x, rfl, hxt⟩
+      have : y = x := by exact_mod_cast hy
+      subst this; exact hyu
+    · intro hxu
+      obtain ⟨y, hy, hyt⟩ := hx.mpr ⟨x, rfl, hxu⟩
+      have : y = x := by exact_mod_cast hy
+      subst this; exact hyt
+  · intro h z
+    rw [et, eu]
+    constructor
+    · rintro ⟨x, rfl, hx⟩; exact ⟨x, rfl, (h x).mp hx⟩
+    · rintro ⟨x, rfl, hx⟩; exact ⟨x, rfl, (h x).mpr hx⟩
+
+/-- the sufficiency half under its own name: equal unrooted split sets ⇒ same unrooted topology, no seed-position
+    hypothesis (supersedes `encode_unrooted_determines_topology_partial`) -/
+theorem encode_unrooted_determines_topology (s c s' c' : Bool) (t u : T) (hgt : Good (T.toH t)) (hgu : Good (T.toH u))
+    (hL : t.mask = u.mask) (h3 : Bridge.ThreeTaxa t.mask) (k : Nat) (hk : Lsb.lsb t.mask = 1 <<< k)
+    (hs : ∀ z : Int, z ∈ (encode (some false) s c t).map (·.2) ↔ z ∈ (encode (some false) s' c' u).map (·.2)) :
+    Iso (canonU k (Hier.sup (T.toH t))) (canonU k (Hier.sup (T.toH u))) :=
+  (encode_unrooted_iff_topology s c s' c' t u hgt hgu hL h3 k hk).mp hs
+
+/-- what `canonU` is: for a well-formed tree with ≥ 3 taxa, a well-formed unifurcation-free tree over the same leafset whose
+    seed (degree ≥ 3) carries leaf `k`, with the same normalised split set -/
+theorem canonU_is_canonical (k : Nat) (t : T) (hg : Good (T.toH t)) (h3 : Bridge.ThreeTaxa t.mask) (hk : k ∈ bits t.mask) :
+    Good (canonU k (Hier.sup (T.toH t))) ∧ NoUnif (canonU k (Hier.sup (T.toH t))) ∧ Canon k (canonU k (Hier.sup (T.toH t))) ∧
+      Hier.mask (canonU k (Hier.sup (T.toH t))) = t.mask ∧
+      ∀ x, x ∈ usplits (1 <<< k) (canonU k (Hier.sup (T.toH t))) ↔ x ∈ usplits (1 <<< k) (Hier.sup (T.toH t)) := by
+  have hm : Hier.mask (Hier.sup (T.toH t)) = t.mask := by rw [sup_mask, toH_mask]
+  have h0 : Hier.mask (T.toH t) ≠ 0 := by rw [toH_mask]; exact threeTaxa_ne_zero h3
+  obtain ⟨a1, a2, a3, a4, a5⟩ := Bridge.canonU_spec k _ (sup_good _ hg) (sup_noUnif _ hg h0) (by rw [hm]; exact hk) (by rw [hm]; exact h3)
+  exact ⟨a1, a2, a3, a4.trans hm, a5⟩
+
+/-- seed position, about `encode` itself: if `u` is `t` with the seed moved across one edge (the mask-labelled view of `u` is
+    the inversion of `t`'s at any child), the encoder gives both the same set of split masks, whatever the flags -/
+theorem encode_unrooted_invariant_under_inversion (s c s' c' : Bool) (t u : T) (pre ds post : List Hier.T)
+    (hgt : Good (T.toH t)) (hgu : Good (T.toH u)) (h0 : t.mask ≠ 0)
+    (ht : T.toH t = .node (pre ++ .node ds :: post)) (hu : T.toH u = invertAt pre ds post) (z : Int) :
+    z ∈ (encode (some false) s c t).map (·.2) ↔ z ∈ (encode (some false) s' c' u).map (·.2) := by
+  obtain ⟨k, hk, _, _⟩ := lsb_spec t.mask (by omega)
+  have hmt : Hier.mask (T.toH t) = t.mask := toH_mask t
+  have hL : u.mask = t.mask := by
+    rw [← toH_mask u, ← toH_mask t, hu, ht]; simp only [invertAt, Hier.mask]; exact maskL_invert pre ds post
+  have et := mem_encode_unrooted_of s c t hgt h0 k hk (T.toH t) hmt (fun m => toH_clades t m)
+  have eu := mem_encode_unrooted_of s' c' u hgu (by rw [hL]; exact h0) k (by rw [hL]; exact hk) (T.toH u)
+    (toH_mask u) (fun m => toH_clades u m)
+  rw [et, eu, ht, hu]
+  have hgl : GoodL (pre ++ .node ds :: post) := by rw [ht] at hgt; simpa [Good] using hgt
+  have hkm : k ∈ bits (maskL (pre ++ .node ds :: post)) := by
+    have := lsb_index_mem _ _ h0 hk
+    rw [← hmt, ht] at this; simpa [Hier.mask] using this
+  have hinv := usplits_invert (1 <<< k) pre ds post hgl
+    (by rw [bits_shift]; exact Set.singleton_subset_iff.mpr hkm) (Bridge.single_shift k) (shift_ne_zero k)
+  constructor
+  · rintro ⟨x, rfl, hx⟩
+    exact ⟨x, rfl, hx.imp id (fun h => (hinv x).mpr h)⟩
+  · rintro ⟨x, rfl, hx⟩
+    exact ⟨x, rfl, hx.imp id (fun h => (hinv x).mp h)⟩
+
+end DendroModel.C01
+
+namespace DendroModel.C01.Aux
+open DendroModel DendroModel.Hier DendroModel.C01
+
+theorem norm_of_avoid (L k y : Nat) (hy : bits y ⊆ bits L) (hk : k ∉ bits y) : Hier.norm L (1 <<< k) y = y := by
+  unfold Hier.norm
+  rw [if_neg (by rw [and_shift_eq_zero_of_not_mem hk]; simp)]
+  exact (and_eq_left_iff y L).mpr hy
+
+theorem norm_single (L k : Nat) : Hier.norm L (1 <<< k) (1 <<< k) = Hier.sdiff L (1 <<< k) := by
+  unfold Hier.norm
+  rw [if_pos (by rw [Nat.and_self]; exact shift_ne_zero k)]
+
+/-- the head filter of `from_split_bitmasks`, unrooted: on a mask inside the namespace that does not contain bit 0 — every
+    split mask of an unrooted encoding is one — the complement-on-bit-0 path is not taken and the filter is the rooted one -/
+theorem prep_unrooted_of_avoid0 (all s : Nat) (h0 : 0 ∉ bits s) : prep all false s = prep all true s := by
+  have h0' : 0 ∉ bits (s &&& all) := by rw [bits_and]; exact fun h => h0 h.1
+  have e : 1 &&& (s &&& all) = 0 := by
+    rw [Nat.and_comm]; exact and_shift_eq_zero_of_not_mem (k := 0) h0'
+  unfold prep
+  simp [e]
+
+/-- `build` in general: whatever survives the head filter, if non-empty, inside the star's leafset and pairwise laminar, is
+    added to the star's clades — in any order -/
+theorem build_clades_general (all : Nat) (members : List Nat) (rooted : Bool) (ss : List Nat) (hm : members.Nodup)
+    (h1 : ∀ s ∈ ss.filterMap (prep all rooted), s ≠ 0 ∧ bits s ⊆ bits (maskL (members.map Hier.T.leaf)))
+    (hlam : ∀ s ∈ ss.filterMap (prep all rooted), ∀ b ∈ ss.filterMap (prep all rooted), Lam s b) :
+    Good (build all members rooted ss) ∧ Hier.mask (build all members rooted ss) = maskL (members.map Hier.T.leaf) ∧
+    ∀ x, x ∈ clades (build all members rooted ss) ↔
+      (x = maskL (members.map Hier.T.leaf) ∨ (∃ b ∈ members, x = 1 <<< b)) ∨ x ∈ ss.filterMap (prep all rooted) := by
+  unfold build
+  have key := build_spec (starOf members) (ss.filterMap (prep all rooted)) (Bridge.starOf_good members hm)
+    (by
+      intro s hs
+      obtain ⟨h10, h11⟩ := h1 s hs
+      exact ⟨h10, by rw [Bridge.starOf_mask]; exact (and_eq_left_iff _ _).mpr h11, Bridge.compat_star members s h11⟩)
+    hlam
+  refine ⟨key.1, key.2.1.trans (Bridge.starOf_mask members), fun x => ?_⟩
+  rw [key.2.2 x, Bridge.starOf_clades]
+
+end DendroModel.C01.Aux
+
+namespace DendroModel.C01
+open DendroModel DendroModel.Hier DendroModel.C01.Aux
+
+/-- **unrooted rebuild of an encoding, about `encode` and `build` together**: when the namespace members are exactly the
+    tree's ≥ 3 taxa (the all-bits mask may have more bits), the tree `build` makes of the split masks of the unrooted
+    encoding **handed over in any order and multiplicity** is well formed, has no unifurcation, and is the encoded tree as
+    an unrooted topology (same canonical re-seeding `canonU` up to child order).  The head filter's complement-on-bit-0
+    path is shown not to fire on an encoding (`prep_unrooted_of_avoid0`: normalised masks never contain bit 0). -/
+theorem rebuild_unrooted_topology (sup col : Bool) (t : T) (all : Nat) (members ss : List Nat)
+    (hg : Good (T.toH t)) (h3 : Bridge.ThreeTaxa t.mask) (hm : members.Nodup)
+    (hmem : ∀ b, b ∈ members ↔ b ∈ bits t.mask) (hall : bits t.mask ⊆ bits all)
+    (k : Nat) (hk : Lsb.lsb t.mask = 1 <<< k)
+    (hss : ∀ x : Nat, x ∈ ss ↔ (x : Int) ∈ (encode (some false) sup col t).map (·.2)) :
+    Iso (canonU k (Hier.sup (T.toH t))) (canonU k (build all members false ss)) ∧
+      Good (build all members false ss) ∧ NoUnif (build all members false ss) := by
+  have h0 : t.mask ≠ 0 := threeTaxa_ne_zero h3
+  have hkL : k ∈ bits t.mask := lsb_index_mem _ _ h0 hk
+  have hlow : ∀ j, j < k → j ∉ bits t.mask := by
+    obtain ⟨k', hk', _, hl⟩ := lsb_spec t.mask (by omega)
+    have : k' = k := shift_inj (hk'.symm.trans hk)
+    subst this
+    intro j hj hjm; have := hl j hj; rw [hjm] at this; exact Bool.noConfusion this
+  have hmT0 : Hier.mask (Hier.sup (T.toH t)) = t.mask := by rw [sup_mask, toH_mask]
+  have hstar : maskL (members.map Hier.T.leaf) = t.mask := by
+    apply bits_inj; rw [Bridge.bits_maskL_leaves]; ext b; exact hmem b
+  obtain ⟨c1, c2, c3, c4, c5⟩ := canonU_is_canonical k t hg h3 hkL
+  obtain ⟨cs, hC, hkcs, h3cs⟩ := c3
+  rw [hC] at c1 c4 c5
+  simp only [Good] at c1
+  simp only [Hier.mask] at c4
+  -- the list handed over is, as a set, {0} ∪ usplits of the canonical form
+  have hssU : ∀ x, x ∈ ss ↔ (x = 0 ∨ x ∈ usplits (1 <<< k) (.node cs)) := by
+    intro x
+    rw [hss x, mem_encode_unrooted_of sup col t hg h0 k hk (Hier.sup (T.toH t)) hmT0 (fun m => by rw [sup_clades, toH_clades])]
+    constructor
+    · rintro ⟨y, hy, hyu⟩
+      have : y = x := by exact_mod_cast hy
+      subst this; exact hyu.imp id (fun h => (c5 y).mpr h)
+    · intro hx; exact ⟨x, rfl, hx.imp id (fun h => (c5 x).mp h)⟩
+  -- every member of it lies inside the leafset and avoids the lowest leaf
+  have helem : ∀ x, x ∈ ss → bits x ⊆ bits t.mask ∧ k ∉ bits x := by
+    intro x hx
+    rcases (hssU x).mp hx with rfl | hx
+    · simp [bits_zero]
+    · rcases (usplits_canon c1 hkcs x).mp hx with rfl | ⟨c, hc, hck, hxc⟩
+      · rw [bits_sdiff, bits_shift, c4]
+        exact ⟨Set.sdiff_subset, fun h => h.2 rfl⟩
+      · obtain ⟨o1, o2, o3⟩ := other_child_clades c1 hkcs hc hck hxc
+        exact ⟨by rw [← c4]; exact o2.trans o3, o1⟩
+  have h0bit : ∀ x, x ∈ ss → 0 ∉ bits x := by
+    intro x hx h0x
+    obtain ⟨e1, e2⟩ := helem x hx
+    have : k = 0 := by
+      by_contra hne
+      exact hlow 0 (by omega) (e1 h0x)
+    rw [this] at e2; exact e2 h0x
+  have hfs : ∀ x, x ∈ ss.filterMap (prep all false) ↔ (x ∈ ss ∧ x ≠ all ∧ ¬ (bits x).Subsingleton) := by
+    intro x
+    rw [List.mem_filterMap]
+    constructor
+    · rintro ⟨s, hs, hp⟩
+      rw [prep_unrooted_of_avoid0 all s (h0bit s hs), Bridge.prep_rooted_of_sub all s ((helem s hs).1.trans hall)] at hp
+      split at hp
+      · rename_i hc
+        simp only [Option.some.injEq] at hp; subst hp
+        exact ⟨hs, hc.1, by rw [← pred_and_zero_iff]; exact hc.2⟩
+      · simp at hp
+    · rintro ⟨hx, h1, h2⟩
+      refine ⟨x, hx, ?_⟩
+      rw [prep_unrooted_of_avoid0 all x (h0bit x hx), Bridge.prep_rooted_of_sub all x ((helem x hx).1.trans hall),
+        if_pos ⟨h1, by rw [Ne, pred_and_zero_iff]; exact h2⟩]
+  -- pairwise laminar: clades of one tree, or "everything but the lowest leaf", which contains all the others
+  have hlamss : ∀ x ∈ ss, ∀ y ∈ ss, Lam x y := by
+    intro x hx y hy
+    have hxe := helem x hx
+    have hye := helem y hy
+    have big : ∀ z, z ∈ ss → bits z ⊆ bits (Hier.sdiff (maskL cs) (1 <<< k)) := by
+      intro z hz
+      rw [bits_sdiff, bits_shift, c4]
+      intro i hi
+      exact ⟨(helem z hz).1 hi, fun h => (helem z hz).2 (by rw [Set.mem_singleton_iff] at h; rw [← h]; exact hi)⟩
+    rcases (hssU x).mp hx with rfl | hxu
+    · exact lam_of_disj (by rw [bits_zero]; exact Set.disjoint_empty _)
+    rcases (hssU y).mp hy with rfl | hyu
+    · exact lam_of_sub (by rw [bits_zero]; exact Set.empty_subset _)
+    rcases (usplits_canon c1 hkcs x).mp hxu with rfl | ⟨cx, hcx, _, hxc⟩
+    · exact lam_of_sub (big y hy)
+    rcases (usplits_canon c1 hkcs y).mp hyu with rfl | ⟨cy, hcy, _, hyc⟩
+    · exact lam_of_sub' (big x hx)
+    · exact cladesL_laminar cs c1 x ((mem_cladesL _ _).mpr ⟨cx, hcx, hxc⟩) y ((mem_cladesL _ _).mpr ⟨cy, hcy, hyc⟩)
+  obtain ⟨hgb, hmb, hcl⟩ := build_clades_general all members false ss hm
+    (by
+      intro s hs
+      obtain ⟨h1, _, h2⟩ := (hfs s).mp hs
+      refine ⟨?_, by rw [hstar]; exact (helem s h1).1⟩
+      intro hz; apply h2; rw [hz, bits_zero]; exact Set.subsingleton_empty)
+    (by
+      intro s hs b hb
+      exact hlamss s ((hfs s).mp hs).1 b ((hfs b).mp hb).1)
+  rw [hstar] at hmb hcl
+  have hne : members ≠ [] := by
+    intro he; apply h0; apply bits_inj; rw [bits_zero]
+    ext b; rw [← hmem b, he]; simp
+  have hnb := Bridge.build_noUnif all members false ss hne
+  refine ⟨?_, hgb, hnb⟩
+  have ht0 : Hier.mask (T.toH t) ≠ 0 := by rw [toH_mask]; exact h0
+  apply (Bridge.unrooted_same_splits_iff k _ _ (sup_good _ hg) hgb (sup_noUnif _ hg ht0) hnb
+    (by rw [hmT0, hmb]) (by rw [hmT0]; exact hkL) (by rw [hmT0]; exact h3)).mp
+  intro x
+  have hroot : Hier.norm (Hier.mask (build all members false ss)) (1 <<< k) (Hier.mask (build all members false ss)) = 0 := by
+    rw [hmb]; exact Bridge.norm_self _ _ (shift_ne_zero k) (by rw [bits_shift]; exact Set.singleton_subset_iff.mpr hkL)
+  rw [Bridge.usplits_or_zero _ (build all members false ss) hroot, hmb]
+  -- left side: x ∈ ss
+  have hleft : (x = 0 ∨ x ∈ usplits (1 <<< k) (Hier.sup (T.toH t))) ↔ x ∈ ss := by
+    rw [hssU x]; exact or_congr Iff.rfl (c5 x).symm
+  rw [hleft]
+  constructor
+  · intro hx
+    rcases (hssU x).mp hx with rfl | hxu
+    · exact ⟨t.mask, (hcl _).mpr (Or.inl (Or.inl rfl)),
+        Bridge.norm_self _ _ (shift_ne_zero k) (by rw [bits_shift]; exact Set.singleton_subset_iff.mpr hkL)⟩
+    rcases (usplits_canon c1 hkcs x).mp hxu with rfl | ⟨c, hc, hck, hxc⟩
+    · exact ⟨1 <<< k, (hcl _).mpr (Or.inl (Or.inr ⟨k, (hmem k).mpr hkL, rfl⟩)), by rw [norm_single, c4]⟩
+    · obtain ⟨e1, e2⟩ := helem x hx
+      by_cases hnt : x ≠ all ∧ ¬ (bits x).Subsingleton
+      · exact ⟨x, (hcl x).mpr (Or.inr ((hfs x).mpr ⟨hx, hnt⟩)), norm_of_avoid _ _ _ e1 e2⟩
+      · have hxa : x ≠ all := by
+          intro h; rw [h] at e2; exact e2 (hall hkL)
+        have hsing : (bits x).Subsingleton := by
+          by_contra hns; exact hnt ⟨hxa, hns⟩
+        have hx0 : x ≠ 0 := clades_ne_zero c (goodL_mem c1 hc).1 (goodL_mem c1 hc).2 x hxc
+        obtain ⟨i, hi⟩ := ne_zero_bits hx0
+        have hxi : x = 1 <<< i := by
+          apply bits_inj; rw [bits_shift]
+          ext j; constructor
+          · intro hj; exact hsing hj hi
+          · intro hj; rw [Set.mem_singleton_iff] at hj; subst hj; exact hi
+        refine ⟨x, (hcl x).mpr (Or.inl (Or.inr ⟨i, (hmem i).mpr (e1 hi), hxi⟩)), norm_of_avoid _ _ _ e1 e2⟩
+  · rintro ⟨y, hy, rfl⟩
+    rcases (hcl y).mp hy with (rfl | ⟨b, hb, rfl⟩) | hyf
+    · rw [Bridge.norm_self _ _ (shift_ne_zero k) (by rw [bits_shift]; exact Set.singleton_subset_iff.mpr hkL)]
+      exact (hssU 0).mpr (Or.inl rfl)
+    · by_cases hbk : b = k
+      · subst hbk
+        rw [norm_single, ← c4]
+        exact (hssU _).mpr (Or.inr ((usplits_canon c1 hkcs _).mpr (Or.inl rfl)))
+      · have hbL : b ∈ bits t.mask := (hmem b).mp hb
+        have hav : b ∉ ({k} : Set Nat) → k ∉ bits (1 <<< b) := by
+          intro _ h; rw [bits_shift, Set.mem_singleton_iff] at h; exact hbk h.symm
+        rw [norm_of_avoid _ _ _ (by rw [bits_shift]; exact Set.singleton_subset_iff.mpr hbL)
+          (hav (by simpa using hbk))]
+        -- the singleton clade of taxon b sits in a child other than leaf k
+        have hmemc : 1 <<< b ∈ cladesL cs := Bridge.single_mem_cladesL cs b (by rw [c4]; exact hbL)
+        obtain ⟨c, hc, hbc⟩ := (mem_cladesL _ _).mp hmemc
+        have hck : c ≠ Hier.T.leaf k := by
+          rintro rfl
+          simp only [clades, List.mem_singleton] at hbc
+          exact hbk (shift_inj hbc)
+        exact (hssU _).mpr (Or.inr ((usplits_canon c1 hkcs _).mpr (Or.inr ⟨c, hc, hck, hbc⟩)))
+    · obtain ⟨h1, _, _⟩ := (hfs y).mp hyf
+      obtain ⟨e1, e2⟩ := helem y h1
+      rw [norm_of_avoid _ _ _ e1 e2]; exact h1
+
+/-! ### (e) `Tree.is_compatible_with_bipartition` as a statement over all edges -/
+
+end DendroModel.C01
+
+namespace DendroModel.C01.Aux
+open DendroModel DendroModel.Hier DendroModel.C01
+
+/-- two masks that are laminar in the bitwise sense are disjoint or nested as taxon sets -/
+theorem lam_sets {a b : Nat} (h : Lam a b) : Disjoint (bits b) (bits a) ∨ bits b ⊆ bits a ∨ bits a ⊆ bits b := by
+  rcases h with h | h | h
+  · exact Or.inl ((and_eq_zero_iff _ _).mp h)
+  · exact Or.inr (Or.inl ((and_eq_left_iff _ _).mp h))
+  · exact Or.inr (Or.inr ((and_eq_left_iff _ _).mp (by rw [Nat.and_comm]; exact h)))
+
+end DendroModel.C01.Aux
+
+namespace DendroModel.C01
+open DendroModel DendroModel.Hier DendroModel.C01.Aux
+
+/-- rooted: `treeCompatible` on the encoding the driver computes (= `Tree.is_compatible_with_bipartition` with default
+    arguments) answers true for a clade `s` inside the tree's leafset iff `s` is disjoint from or nested with the leafset
+    below EVERY edge of the tree.  (The shortcut "already in the encoding" is sound because the clades of one tree are
+    pairwise laminar.) -/
+theorem tree_compatible_rooted_sets (t : T) (s : Nat) (hg : Good (T.toH t)) (h0 : t.mask ≠ 0) (hs : bits s ⊆ bits t.mask) :
+    treeCompatible (encode (some true) true true t) (encodeTree (some true) true true t).mask (s : Int) = true ↔
+      ∀ m ∈ t.masksPost, Disjoint (bits m) (bits s) ∨ bits m ⊆ bits s ∨ bits s ⊆ bits m := by
+  have hmem : ∀ p : Nat × Int, p ∈ encode (some true) true true t ↔ ∃ m ∈ t.masksPost, p = (m, (m : Int)) := by
+    intro p
+    have e : encodeTree (some true) true true t = t.sup := by simp [encodeTree]
+    simp only [encode, e, List.mem_map]
+    have hb : ((some true : Option Bool) == some true) = true := rfl
+    simp only [hb, splitOf, if_true]
+    constructor
+    · rintro ⟨m, hm, rfl⟩; exact ⟨m, ((suppress_keeps_masks t).2.2 m).mp hm, rfl⟩
+    · rintro ⟨m, hm, rfl⟩; exact ⟨m, ((suppress_keeps_masks t).2.2 m).mpr hm, rfl⟩
+  have hsub : ∀ m ∈ t.masksPost, bits m ⊆ bits t.mask := by
+    intro m hm; rw [← toH_mask]; exact clades_sub _ m ((toH_clades t m).mpr hm)
+  have hone : ∀ m ∈ t.masksPost, (isCompatible (m : Int) (s : Int) (t.mask : Int) = true ↔
+      (Disjoint (bits m) (bits s) ∨ bits m ⊆ bits s ∨ bits s ⊆ bits m)) :=
+    fun m hm => is_compatible_sets m s t.mask h0 (hsub m hm) hs
+  unfold treeCompatible
+  rw [encodeTree_mask, Bool.or_eq_true, List.any_eq_true, List.all_eq_true]
+  constructor
+  · rintro (⟨p, hp, hps⟩ | hall)
+    · obtain ⟨m', hm', rfl⟩ := (hmem p).mp hp
+      have : m' = s := by
+        have h' : ((m' : Nat) : Int) = (s : Int) := beq_iff_eq.mp hps
+        exact_mod_cast h'
+      subst this
+      intro m hm
+      have := clades_laminar (T.toH t) hg m' ((toH_clades t m').mpr hm') m ((toH_clades t m).mpr hm)
+      exact lam_sets this
+    · intro m hm
+      exact (hone m hm).mp (hall (m, (m : Int)) ((hmem _).mpr ⟨m, hm, rfl⟩))
+  · intro h
+    right
+    intro p hp
+    obtain ⟨m, hm, rfl⟩ := (hmem p).mp hp
+    exact (hone m hm).mpr (h m hm)
+
+end DendroModel.C01
+
+namespace DendroModel.C01.Aux
+open DendroModel DendroModel.Hier DendroModel.C01
+
+/-- compatibility of two bipartitions `A | F∖A`, `B | F∖B` of the same taxon set `F`: one of the four intersections of
+    sides is empty -/
+def Quad (A B F : Set Nat) : Prop := A ∩ B = ∅ ∨ A \ B = ∅ ∨ B \ A = ∅ ∨ (F \ A) ∩ (F \ B) = ∅
+
+theorem quad_symm (A B F : Set Nat) : Quad A B F ↔ Quad B A F := by
+  unfold Quad; rw [Set.inter_comm A B, Set.inter_comm (F \ A) (F \ B)]; tauto
+
+/-- … and it does not matter which side of a bipartition is named -/
+theorem quad_compl_left (A B F : Set Nat) (hA : A ⊆ F) (hB : B ⊆ F) : Quad (F \ A) B F ↔ Quad A B F := by
+  have e1 : (F \ A) ∩ B = B \ A := by
+    ext x; simp only [Set.mem_inter_iff, Set.mem_sdiff]
+    exact ⟨fun h => ⟨h.2, h.1.2⟩, fun h => ⟨⟨hB h.1, h.2⟩, h.1⟩⟩
+  have e2 : (F \ A) \ B = (F \ A) ∩ (F \ B) := by
+    ext x; simp only [Set.mem_inter_iff, Set.mem_sdiff]
+    exact ⟨fun h => ⟨h.1, h.1.1, h.2⟩, fun h => ⟨h.1, h.2.2⟩⟩
+  have e3 : B \ (F \ A) = A ∩ B := by
+    ext x; simp only [Set.mem_inter_iff, Set.mem_sdiff]
+    constructor
+    · intro h; refine ⟨?_, h.1⟩; by_contra hx; exact h.2 ⟨hB h.1, hx⟩
+    · intro h; exact ⟨h.2, fun h' => h'.2 h.1⟩
+  have e4 : (F \ (F \ A)) ∩ (F \ B) = A \ B := by
+    ext x; simp only [Set.mem_inter_iff, Set.mem_sdiff]
+    constructor
+    · intro h; refine ⟨?_, h.2.2⟩; by_contra hx; exact h.1.2 ⟨h.1.1, hx⟩
+    · intro h; exact ⟨⟨hA h.1, fun h' => h'.2 h.1⟩, hA h.1, h.2⟩
+  unfold Quad; rw [e1, e2, e3, e4]; tauto
+
+theorem quad_compl_right (A B F : Set Nat) (hA : A ⊆ F) (hB : B ⊆ F) : Quad A (F \ B) F ↔ Quad A B F := by
+  rw [quad_symm, quad_compl_left B A F hB hA, quad_symm]
+
+theorem quad_of_lam {A B : Set Nat} (F : Set Nat) (h : Disjoint A B ∨ A ⊆ B ∨ B ⊆ A) : Quad A B F := by
+  rcases h with h | h | h
+  · exact Or.inl (Set.disjoint_iff_inter_eq_empty.mp h)
+  · exact Or.inr (Or.inl (Set.sdiff_eq_empty.mpr h))
+  · exact Or.inr (Or.inr (Or.inl (Set.sdiff_eq_empty.mpr h)))
+
+/-- the normalised mask of a leafset names the same bipartition -/
+theorem quad_norm_left (L k m : Nat) (B : Set Nat) (hm : bits m ⊆ bits L) (hB : B ⊆ bits L) :
+    Quad (bits (Hier.norm L (1 <<< k) m)) B (bits L) ↔ Quad (bits m) B (bits L) := by
+  unfold Hier.norm
+  by_cases h : m &&& (1 <<< k) ≠ 0
+  · rw [if_pos h, bits_sdiff]; exact quad_compl_left _ _ _ hm hB
+  · rw [if_neg h, (and_eq_left_iff m L).mpr hm]
+
+theorem norm_sub (L lo m : Nat) : bits (Hier.norm L lo m) ⊆ bits L := by
+  unfold Hier.norm; split
+  · rw [bits_sdiff]; exact Set.sdiff_subset
+  · rw [bits_and]; exact Set.inter_subset_right
+
+theorem norm_avoid (L k m : Nat) : k ∉ bits (Hier.norm L (1 <<< k) m) := by
+  unfold Hier.norm
+  by_cases h : m &&& (1 <<< k) ≠ 0
+  · rw [if_pos h, bits_sdiff]
+    exact fun hx => hx.2 (mem_bits_of_and_shift_ne_zero h)
+  · rw [if_neg h, bits_and]
+    have h : m &&& (1 <<< k) = 0 := by by_contra hh; exact h hh
+    intro hx
+    have : k ∈ bits (m &&& 1 <<< k) := by rw [bits_and, bits_shift]; exact ⟨hx.1, rfl⟩
+    rw [h, bits_zero] at this; exact this
+
+end DendroModel.C01.Aux
+
+namespace DendroModel.C01
+open DendroModel DendroModel.Hier DendroModel.C01.Aux
+
+/-- unrooted: `treeCompatible` on the encoding the driver computes answers true for a normalised split mask `s` (inside the
+    tree's leafset, not containing its lowest taxon `k`) iff the bipartition `s | L∖s` is compatible — four-quadrant
+    definition — with the bipartition induced by EVERY edge of the tree -/
+theorem tree_compatible_unrooted_sets (t : T) (s k : Nat) (hg : Good (T.toH t)) (h0 : t.mask ≠ 0)
+    (hk : Lsb.lsb t.mask = 1 <<< k) (hs : bits s ⊆ bits t.mask) (hks : k ∉ bits s) :
+    treeCompatible (encode (some false) true true t) (encodeTree (some false) true true t).mask (s : Int) = true ↔
+      ∀ m ∈ t.masksPost, Quad (bits m) (bits s) (bits t.mask) := by
+  have hkL : k ∈ bits t.mask := lsb_index_mem _ _ h0 hk
+  have hsub : ∀ m ∈ t.masksPost, bits m ⊆ bits t.mask := by
+    intro m hm; rw [← toH_mask]; exact clades_sub _ m ((toH_clades t m).mpr hm)
+  have hone : ∀ m ∈ t.masksPost,
+      (isCompatible ((Hier.norm t.mask (1 <<< k) m : Nat) : Int) (s : Int) (t.mask : Int) = true ↔
+        Quad (bits m) (bits s) (bits t.mask)) := by
+    intro m hm
+    rw [is_compatible_four_quadrants _ s t.mask k (norm_sub _ _ _) hs hkL (norm_avoid _ _ _) hks]
+    exact quad_norm_left t.mask k m (bits s) (hsub m hm) hs
+  have hmem := fun z => mem_encode_unrooted true true t hg h0 z
+  simp only [hk] at hmem
+  have hall : (∀ p ∈ encode (some false) true true t, isCompatible p.2 (s : Int) (t.mask : Int) = true) ↔
+      ∀ m ∈ t.masksPost, isCompatible ((Hier.norm t.mask (1 <<< k) m : Nat) : Int) (s : Int) (t.mask : Int) = true := by
+    constructor
+    · intro h m hm
+      obtain ⟨p, hp, hp2⟩ := List.mem_map.mp ((hmem _).mpr ⟨m, hm, rfl⟩)
+      rw [← hp2]; exact h p hp
+    · intro h p hp
+      obtain ⟨m, hm, e⟩ := (hmem p.2).mp (List.mem_map.mpr ⟨p, hp, rfl⟩)
+      rw [← e]; exact h m hm
+  unfold treeCompatible
+  rw [encodeTree_mask, Bool.or_eq_true, List.any_eq_true, List.all_eq_true, hall]
+  constructor
+  · rintro (⟨p, hp, hps⟩ | h)
+    · obtain ⟨m', hm', e⟩ := (hmem p.2).mp (List.mem_map.mpr ⟨p, hp, rfl⟩)
+      have hse : Hier.norm t.mask (1 <<< k) m' = s := by
+        have h' : p.2 = (s : Int) := beq_iff_eq.mp hps
+        rw [← e] at h'; exact_mod_cast h'
+      intro m hm
+      rw [← hse, quad_symm, quad_norm_left t.mask k m' (bits m) (hsub m' hm') (hsub m hm), quad_symm]
+      have := clades_laminar (T.toH t) hg m' ((toH_clades t m').mpr hm') m ((toH_clades t m).mpr hm)
+      exact quad_of_lam _ (lam_sets this)
+    · intro m hm; exact (hone m hm).mp (h m hm)
+  · intro h; right
+    intro m hm; exact (hone m hm).mpr (h m hm)
+
 /-! non-vacuity: the hypotheses are met by concrete trees -/
 example : Good (T.toH (.node 0 none none none [.node 1 (some 0) none none [], .node 2 none none none
     [.node 3 (some 2) none none [], .node 4 (some 3) none none []]])) := by
@@ -837,6 +1341,24 @@ example : Canon 0 (T.toH (encodeTree (some false) true true exT)) ∧ Lsb.lsb (T
 example : Good (T.toH (encodeTree (some false) true true exT)) ∧ NoUnif (T.toH (encodeTree (some false) true true exT)) := by
   have e : T.toH (encodeTree (some false) true true exT) = .node [.leaf 0, .leaf 2, .leaf 3] := by rfl
   rw [e]; simp [Good, GoodL, NoUnif, NoUnifL, Hier.mask, Hier.maskL]
+-- extension round.  encode_unrooted_iff_topology / _determines_topology / canonU_is_canonical: three taxa 0,2,3, lowest 0
+example : Bridge.ThreeTaxa (T.mask exT) ∧ Lsb.lsb (T.mask exT) = 1 <<< 0 :=
+  ⟨⟨0, 2, 3, by show Nat.testBit _ _ = true; decide, by show Nat.testBit _ _ = true; decide,
+    by show Nat.testBit _ _ = true; decide, by decide, by decide, by decide⟩, by decide⟩
+example : Hier.render (canonU 0 (Hier.sup (T.toH exT))) = "(2,3,0)" := by decide
+-- a second drawing of the same unrooted tree, seeded elsewhere, with a unifurcation: ((t3,(t0)),t2)
+example : Hier.render (canonU 0 (Hier.sup (T.toH (.node 0 none none none [.node 1 none none none [.node 2 (some 3) none none [],
+    .node 3 none none none [.node 4 (some 0) none none []]], .node 5 (some 2) none none []])))) = "(3,0,2)" := by decide
+-- encode_unrooted_invariant_under_inversion: exT is of the required shape (pre = [leaf 0], ds = [leaf 2, leaf 3], post = [])
+example : T.toH exT = .node ([.leaf 0] ++ .node [.leaf 2, .leaf 3] :: []) := by rfl
+-- rebuild_unrooted_topology: the unrooted encoding of exT has split masks {12, 4, 8, 0}; any order, duplicates allowed
+example : Hier.render (build 15 [0, 2, 3] false [0, 8, 12, 4, 12]) = "(0,(2,3))" := by decide
+example : Hier.render (canonU 0 (build 15 [0, 2, 3] false [0, 8, 12, 4, 12])) = "(2,3,0)" := by decide
+-- tree_compatible_rooted_sets / _unrooted_sets: clade {2,3} on exT; it avoids the lowest taxon 0
+example : treeCompatible (encode (some true) true true exT) (encodeTree (some true) true true exT).mask 12 = true := by decide
+example : treeCompatible (encode (some false) true true exT) (encodeTree (some false) true true exT).mask 12 = true := by decide
+example : bits 12 ⊆ bits (T.mask exT) ∧ 0 ∉ bits 12 :=
+  ⟨by rw [← and_eq_left_iff]; decide, by show ¬ (Nat.testBit _ _ = true); decide⟩
 end
 
 end DendroModel.C01
